@@ -135,6 +135,16 @@ class Session:
                 return r
             tb = traceback.extract_tb(e.__traceback__)
             last = tb[-1] if tb else None
+            repo_root = os.path.realpath(REPO) + os.sep
+            in_repo = any(os.path.realpath(f.filename).startswith(repo_root) for f in tb)
+            last_in_verif = last is not None and os.path.realpath(last.filename).startswith(os.path.realpath(HERE) + os.sep)
+            harness_like = isinstance(e, (AttributeError, KeyError, TypeError, NameError, ImportError, IndexError, AssertionError, NotImplementedError))
+            if in_repo and not last_in_verif and not harness_like:
+                # the code under verification (or a library it called) raised on an input meeting the contract's precondition
+                r = Result(REFUTED, "engine", "the real code raised %s on an input meeting the precondition:\n%s" % (type(e).__name__, traceback.format_exc()[-1200:]),
+                           witness_id="raises:%s:%s" % (last.name if last else "?", type(e).__name__), replay={"reproduced": True, "raised": repr(e)[:300]})
+                r.time_s = time.time() - t
+                return r
             if last is not None and os.path.realpath(last.filename).startswith(os.path.realpath(REPO) + os.sep) \
                     and (last.line or "").lstrip().startswith("raise"):
                 # an explicit `raise` in the code under verification on inputs satisfying the contract's
